@@ -7,6 +7,9 @@ NOTE_COMMON = ('Trusted: Coq 8.16.1 kernel; no axioms (Print Assumptions of each
                'the hand-written Gallina model coq/Model/*.v is tied to /repo only by the differential correspondence run of this check (extracted OCaml model vs the crate rebuilt from the working tree, same case files); '
                'extraction with ExtrOcamlBasic only; CRCs, std I/O adapters, allocator and 64-bit usize are modelled, not verified. ')
 T = {
+ 'C13': ('Machine-checked theorems on the model: for every input (valid or not), every fuel and option, any two fault-free sources over the same bytes - whatever their refill policies (buffer capacities, short-read patterns, partly consumed buffers, Take limits) - give the same verdict, the same sink contents and the same consumed count for lzma_decompress_with_options, lzma2_decompress and xz_decompress (relational proof through every layer: derived reads, range decoder, symbol decoder by handler refinement, process_mode / chunk / block loops by loop simulation). Tied to the crate by running every input under slice, Cursor, BufReader capacities and cyclic short-read readers.',
+         'Coq proof (relational / handler-refinement argument over all source policies) + differential correspondence across reader kinds',
+         'Known finding (known_findings.txt): after an Err inside an XZ block header the real reader position depends on the fragmentation, because read_block parses through a BufReader that reads ahead; the model abstracts that reader by its net effect (DESIGN.md section 4), so the theorem speaks about the model position.'),
  'C06': ('Machine-checked soundness theorem for the model of xz_decompress with the CRC functions as arbitrary parameters: success implies that the complete input is exactly one stream hdr ++ blocks ++ index ++ footer in which header magic/flags/CRC32, every block header CRC32, declared block sizes, zero padding, every block check (CRC32/CRC64 of the decoded output), the index record count and per-block sizes and CRC32, and the footer CRC32, flags and backward size (compared in unbounded arithmetic) all agree with the decoded data, nothing follows the footer, and the sink received exactly the blocks\' outputs (inversion of the parser, induction over the block loop). The no-silent-corruption consequence is tested by exhaustive single-bit flips of sample files and by one mutant per integrity field with enclosing CRCs recomputed.',
          'Coq proof (inversion of the monadic parser, loop invariant over blocks) + differential correspondence on field mutants, bit flips, truncations',
          'Absence of CRC collisions is tested, not proved. The block-header reader (BufReader<CrcDigestRead<Take>>) is modelled by its net effect.'),
